@@ -56,6 +56,13 @@ def evaluate(chk, cases, results, workdir):
                                    reason='the implementation\'s output could not be interpreted (%s: %s)' % (type(ex).__name__, ex)))
             continue
         for i, (c, e, a) in enumerate(zip(cases, exp, act)):
+            if ';ALLOC=' in a:
+                # a single allocation request of >= 512 MB while handling this case (FORMAT.md); C03's business only
+                a, req = a.rsplit(';ALLOC=', 1)
+                if chk.id == 'C03':
+                    violations.append(dict(case=c, profile=prof, impl=a, model=e,
+                                           reason='a single allocation of %s bytes was requested while handling this input; the largest '
+                                                  'legitimate buffer is the declared remaining length (< 2^28)' % req))
             an = lib.normalize(a)
             en = lib.normalize(e)
             if a == 'TIMEOUT-SKIPPED':
